@@ -1,5 +1,6 @@
 """Per-property configuration of ./check: streams, projections (the observables the property talks about),
 predicates evaluated on the implementation's own observations, known-finding classifiers, translators."""
+import os
 import re
 
 # translators run before every lake build: (tool directory under tools/, generated file, arguments)
@@ -272,7 +273,9 @@ def special_rerun(prop, sc, tier, seed, harness, repo):
     r = subprocess.run([harness, "gen", sc["stream"], sc["profile"], str(seed), str(n)], capture_output=True, text=True)
     lines = [l for l in r.stdout.split("\n") if l]
     def run_lines(ls):
-        out = subprocess.run([harness, "run"], input="\n".join(ls) + "\n", capture_output=True, text=True, timeout=900).stdout
+        # error messages are part of what must be the same (VERIF_ERRTEXT: the harness prints them)
+        out = subprocess.run([harness, "run"], input="\n".join(ls) + "\n", capture_output=True, text=True, timeout=900,
+                             env=dict(os.environ, VERIF_ERRTEXT="1")).stdout
         obs = {}
         for line in out.split("\n"):
             p = line.split("\t")
@@ -447,15 +450,36 @@ def special_load(prop, sc, tier, seed, harness, repo):
 
 
 def mixed_indent_line(case):
-    """first content line (not blank, not comment-only) of any reader whose indentation contains both a tab and a space"""
+    """first content line (not blank, not comment-only) of a node body whose indentation contains both a tab and a space.
+    Only white space that follows a line end of the BODY counts as indentation: a line end inside an open command or inline
+    expression (<<set\n \t $x to 1>>, {1 +\n \t 2}) is white space of that construct, and header lines are not body lines.
+    Deliberately conservative: anything that might be inside such a construct is not judged by this predicate (the
+    comparison with the independent syntax-error oracle still applies to it)."""
     for m in re.findall(r"\(b((?: \d+)*)\)", case.split("(seed", 1)[0]):
         data = bytes(int(x) for x in m.split())
         text = data.decode("utf-8", errors="replace")
-        for ln in re.split(r"\r\n|\n|\r", text)[1:]:   # indentation is what follows a line end
-            body = ln.lstrip(" \t")
-            ind = ln[:len(ln) - len(body)]
-            if " " in ind and "\t" in ind and body.strip() != "" and not body.startswith("//"):
-                return ln[:40]
+        lines = re.split(r"\r\n|\n|\r", text)
+        in_body = False
+        open_cmd = open_brace = 0
+        for k, ln in enumerate(lines):
+            stripped = ln.strip(" \t")
+            if k > 0 and in_body and open_cmd <= 0 and open_brace <= 0:
+                body = ln.lstrip(" \t")
+                ind = ln[:len(ln) - len(body)]
+                if " " in ind and "\t" in ind and body.strip() != "" and not body.startswith("//"):
+                    return ln[:40]
+            if stripped == "---":
+                in_body, open_cmd, open_brace = True, 0, 0
+            elif stripped.startswith("==="):
+                in_body, open_cmd, open_brace = False, 0, 0
+            elif in_body:
+                code = ln.split("//", 1)[0]
+                open_cmd += code.count("<<") - code.count(">>")
+                open_brace += code.count("{") - code.count("}")
+                if "<" in code.replace("<<", "") or '"' in code and code.count('"') % 2 == 1 or "\ufffd" in code or "\x00" in code:
+                    # a lone '<', an open string or undecodable bytes: what mode the lexer is in after this line is not
+                    # something this predicate should guess
+                    open_cmd = max(open_cmd, 1)
     return None
 
 
@@ -572,7 +596,9 @@ PROPERTIES = {
                    rule="run/snap: multi-node programs; histories over 1-3 runners of the same script mixing next, snapshot, restore into any runner in any state (mid-node, waiting for a choice, command pending, ended), host writes, and re-observation of every snapshot taken so far; compared: everything; predicate: a snapshot never changes after it was taken; non-trivial = a successful restore and at least two snapshots",
                    leanchecker=["Ysgo.Props.C07"]),
     "C09": runprop("rand", ("res", "v"), ("text", "dis"), 1200, 50000, nontrivial=lambda obs, case: True,
-                   extra_streams=[{"stream": "run", "profile": "rand", "quick": 400, "thorough": 8000, "special": special_rerun}],
+                   extra_streams=[{"stream": "run", "profile": "rand", "quick": 400, "thorough": 8000, "special": special_rerun},
+                                  # runs full of errors: their texts are part of the run too
+                                  {"stream": "run", "profile": "faults", "quick": 300, "thorough": 6000, "special": special_rerun}],
                    rule="run/rand: programs rendering dice, random and random_range in lines, conditions and assignments over several seeds; the implementation must reproduce the pure model's random values bit for bit; plus the same cases re-executed in reverse order in a second process must give identical observations",
                    leanchecker=["Ysgo.Props.C09", "Ysgo.Props.C09Facts"]),
     "C10": runprop("cmds", ("res", "log"), ("text",), 1200, 50000,
